@@ -5,6 +5,7 @@ import (
 	"database/sql/driver"
 	"fmt"
 	"math/big"
+	"strings"
 	"sync"
 
 	"github.com/holiman/uint256"
@@ -205,6 +206,24 @@ func (d Decl) NewValidated() (dig.Integration, error) {
 	root := config.Root{Integrations: []config.Integration{{
 		Name: d.Name, Enabled: true, Table: d.DigTable(), Block: d.DigBlock(), Event: d.DigEvent(), FilterAGG: d.Agg,
 	}}}
+	// the integrations that filter_ref entries name: "ig_<table>" with table <table>(<column>)
+	have := map[string]bool{}
+	addRef := func(f Flt) {
+		if f.RefIG == "" || have[f.RefIG] {
+			return
+		}
+		have[f.RefIG] = true
+		root.Integrations = append(root.Integrations, config.Integration{
+			Name: f.RefIG, Enabled: true,
+			Table: wpg.Table{Name: strings.TrimPrefix(f.RefIG, "ig_"), Columns: []wpg.Column{{Name: f.RefCol, Type: "bytea"}}},
+		})
+	}
+	for _, in := range d.Inputs {
+		addRef(in.Flt)
+	}
+	for _, b := range d.Block {
+		addRef(b.Flt)
+	}
 	if err := config.ValidateFix(&root); err != nil {
 		return dig.Integration{}, fmt.Errorf("ValidateFix: %w", err)
 	}
